@@ -681,6 +681,22 @@ impl CallOutcome {
     }
 }
 
+/// what a body declared about itself before each frame - (bytes delivered before the question, lower, upper, is_end_stream) -
+/// held against what it delivered in the end
+pub fn framing_fault_of(declared: &[(u64, u64, Option<u64>, bool)], delivered: u64) -> Option<String> {
+    for (i, (before, lower, upper, end)) in declared.iter().enumerate() {
+        let remaining = delivered - before;
+        let something_follows = i + 1 < declared.len();
+        if *lower > remaining || upper.is_some_and(|u| u < remaining) {
+            return Some(format!("after {before} of {delivered} body bytes the body declared between {lower} and {upper:?} more bytes; {remaining} followed"));
+        }
+        if *end && something_follows {
+            return Some(format!("after {before} of {delivered} body bytes the body declared itself ended; a further frame followed"));
+        }
+    }
+    None
+}
+
 pub async fn collect_response(res: s3s::HttpResponse) -> Resp {
     use http_body::Body as _;
     use http_body_util::BodyExt;
@@ -713,21 +729,7 @@ pub async fn collect_response(res: s3s::HttpResponse) -> Resp {
             }
         }
     }
-    let mut framing_fault = None;
-    if body_error.is_none() {
-        for (i, (before, lower, upper, end)) in declared.iter().enumerate() {
-            let remaining = delivered - before;
-            let something_follows = i + 1 < declared.len();
-            if *lower > remaining || upper.is_some_and(|u| u < remaining) {
-                framing_fault = Some(format!("after {before} of {delivered} body bytes the body declared between {lower} and {upper:?} more bytes; {remaining} followed"));
-                break;
-            }
-            if *end && something_follows {
-                framing_fault = Some(format!("after {before} of {delivered} body bytes the body declared itself ended; a further frame followed"));
-                break;
-            }
-        }
-    }
+    let framing_fault = if body_error.is_none() { framing_fault_of(&declared, delivered) } else { None };
     Resp { status: parts.status, headers: parts.headers, frames, trailers, body_error, framing_fault }
 }
 
